@@ -788,7 +788,7 @@ func runCB(e *lp.Exec, head string, ops []string) {
 	mux := http.NewServeMux()
 	mux.HandleFunc("/ws", func(w http.ResponseWriter, r *http.Request) { _, _ = u.Upgrade(w, r, nil) })
 	eng := nbhttp.NewEngine(nbhttp.Config{NPoller: 1, Handler: mux, SupportServerOnly: true, KeepaliveTime: time.Hour,
-		BodyAllocator: mempool.New(1024, 1<<20),
+		BodyAllocator:  mempool.New(1024, 1<<20),
 		ServerExecutor: func(f func()) { go f() }})
 	u.Engine = eng
 	if err := eng.Start(); err != nil {
